@@ -136,9 +136,13 @@ def gen_plan(rng: Rng, tier: str, faulty: bool = False, enum: bool = False, base
                                   "memprof": False}]})
     if faulty:
         fr = rng.fork("faults")
-        kind = fr.weighted([("write_enospc", 6), ("write_eio", 4), ("kill", 8), ("fsop_fail", 1), ("open_eacces", 1)])
+        kind = fr.weighted([("write_enospc", 6), ("write_eio", 4), ("kill", 8), ("fsop_fail", 1), ("open_eacces", 1), ("alloc_fail", 2)])
         target = fr.choice(["_with_counters", "_c2", "overlaid_critical_path_", "out/"])
-        if kind == "fsop_fail":
+        if kind == "alloc_fail":
+            # the serialiser cannot allocate the document in one piece
+            sess_a["env"].setdefault("faults", []).append({"kind": kind, "path": "@alloc", "site": fr.choice(["json.dumps", "json.dumps", "json.dump"]),
+                                                           "call": fr.choice([0, 0, 1, 2])})
+        elif kind == "fsop_fail":
             # creating the output directory fails
             sess_a["env"].setdefault("faults", []).append({"kind": kind, "path": fr.choice(["out", "overlay"]), "contains": True,
                                                            "errno": fr.choice(["EPERM", "ENOSPC", "EACCES"])})
